@@ -39,7 +39,7 @@ class FString(object):
         except Exception:
             return False
 
-    def complete_debug_specifier(self, partial_specifier_candidates, value_node):
+    def complete_debug_specifier(self, partial_specifier_candidates, value_node, quote=None):
         assert isinstance(value_node, ast.FormattedValue)
 
         conversion = ''
@@ -54,7 +54,7 @@ class FString(object):
         conversion_candidates = [x + conversion for x in partial_specifier_candidates]
 
         if value_node.format_spec is not None:
-            conversion_candidates = [c + ':' + fs for c in conversion_candidates for fs in FormatSpec(value_node.format_spec, self.allowed_quotes, self.pep701).candidates()]
+            conversion_candidates = [c + ':' + fs for c in conversion_candidates for fs in FormatSpec(value_node.format_spec, self.allowed_quotes, self.pep701, quote).candidates()]
 
         return [x + '}' for x in conversion_candidates]
 
@@ -92,9 +92,9 @@ class FString(object):
                         continue
                 elif isinstance(v, ast.FormattedValue):
                     try:
-                        completed = self.complete_debug_specifier(debug_specifier_candidates, v)
+                        completed = self.complete_debug_specifier(debug_specifier_candidates, v, quote)
                         candidates = [
-                            x + y for x in candidates for y in FormattedValue(v, nested_allowed, self.pep701).get_candidates()
+                            x + y for x in candidates for y in FormattedValue(v, nested_allowed, self.pep701, quote).get_candidates()
                         ] + completed
                         debug_specifier_candidates = []
                     except Exception:
@@ -107,7 +107,7 @@ class FString(object):
         return filter(self.is_correct_ast, actual_candidates)
 
     def str_for(self, s, quote):
-        if self.pep701 and any(c in '\\\r\0' or 0xD800 <= ord(c) <= 0xDFFF for c in s):
+        if self.pep701 and (quote[0] in s or any(c in '\\\r\0' or 0xD800 <= ord(c) <= 0xDFFF for c in s)):
             # Since PEP 701 a nested f-string may contain backslash escapes
             return str(MiniString(s, quote)).replace('{', '{{').replace('}', '}}')
 
@@ -162,13 +162,14 @@ class FormattedValue(ExpressionPrinter):
     An F-String Expression Part
     """
 
-    def __init__(self, node, allowed_quotes, pep701):
+    def __init__(self, node, allowed_quotes, pep701, enclosing_quote=None):
         super(FormattedValue, self).__init__()
 
         assert isinstance(node, ast.FormattedValue)
         self.node = node
         self.allowed_quotes = allowed_quotes
         self.pep701 = pep701
+        self.enclosing_quote = enclosing_quote
         self.candidates = ['']
 
     def get_candidates(self):
@@ -189,7 +190,7 @@ class FormattedValue(ExpressionPrinter):
 
         if self.node.format_spec is not None:
             self.printer.delimiter(':')
-            self._append(FormatSpec(self.node.format_spec, self.allowed_quotes, pep701=self.pep701).candidates())
+            self._append(FormatSpec(self.node.format_spec, self.allowed_quotes, pep701=self.pep701, enclosing_quote=self.enclosing_quote).candidates())
 
         self.printer.delimiter('}')
 
@@ -351,12 +352,13 @@ class FormatSpec(object):
 
     """
 
-    def __init__(self, node, allowed_quotes, pep701):
+    def __init__(self, node, allowed_quotes, pep701, enclosing_quote=None):
         assert isinstance(node, ast.JoinedStr)
 
         self.node = node
         self.allowed_quotes = allowed_quotes
         self.pep701 = pep701
+        self.enclosing_quote = enclosing_quote
 
     def candidates(self):
 
@@ -366,7 +368,7 @@ class FormatSpec(object):
                 candidates = [x + self.str_for(v.s) for x in candidates]
             elif isinstance(v, ast.FormattedValue):
                 candidates = [
-                    x + y for x in candidates for y in FormattedValue(v, self.allowed_quotes, self.pep701).get_candidates()
+                    x + y for x in candidates for y in FormattedValue(v, self.allowed_quotes, self.pep701, self.enclosing_quote).get_candidates()
                 ]
             else:
                 raise RuntimeError('Unexpected JoinedStr value')
@@ -378,6 +380,9 @@ class FormatSpec(object):
             # Since PEP 701 backslash escapes are interpreted in a format spec
             s = s.replace('\\', '\\\\').replace('\r', '\\r').replace('\0', '\\x00')
             s = ''.join('\\u%04x' % ord(c) if 0xD800 <= ord(c) <= 0xDFFF else c for c in s)
+            if self.enclosing_quote is not None:
+                # The spec is part of the enclosing f-string's literal text, so its quote character must be escaped
+                s = s.replace(self.enclosing_quote[0], '\\' + self.enclosing_quote[0])
 
         return s.replace('{', '{{').replace('}', '}}')
 
